@@ -11,7 +11,7 @@ from vt.gen import fag, rxg, cfgg, pdag
 PROP = 'C19'
 TITLE = 'operands intact; results independent of history, logging and hash order'
 SHARDS = {'quick': 8, 'thorough': 64}
-TIMEOUT = {'quick': 900, 'thorough': 3600}
+TIMEOUT = {'quick': 420, 'thorough': 3600}
 REQUIRED = ['immutability', 'repeat_call', 'history_order', 'logging_toggle', 'battery_digest']
 EXHAUSTIVE_NOTE = 'no complete sub-space: a fixed battery of calls over all pure functions plus seeded random operands'
 RULE = ('cases are calls of the non-in-place public functions (conversions, minimisers, products, normal forms, acceptance tests, enumerators, printers, generate_language, checkers). '
